@@ -319,6 +319,7 @@ class Trialer:
             now = _sha(self.user_file) if os.path.exists(self.user_file) else None
             if now != self.user_sha:
                 v.append(Violation(PROPERTY, "C13.user-file", sig + ":user-file-modified:" + (site[0] + ":" + site[1] + "->" + site[3] if site else label), "after fault %s at %s: %s -> %s" % (label, where, self.user_sha, now)))
+                os.makedirs(os.path.dirname(self.user_file), exist_ok=True)  # the directory may be gone as well
                 self.w.libraries[0].write(self.user_file)
                 self.user_sha = _sha(self.user_file)
         # 4 next call on the same object == fresh twin with a clone of the generator
@@ -398,7 +399,10 @@ def run(program):
             v.append(Violation(PROPERTY, "C13.leak", "C13:%s:cache-file-left-behind-after-normal-call" % op["op"], str(left)))
         del T.tmp_names[:]
         if T.user_file and _sha(T.user_file) != T.user_sha:
-            v.append(Violation(PROPERTY, "C13.user-file", "C13:%s:file:user-file-modified-by-normal-call" % op["op"], "sha/size/mtime changed"))
+            v.append(Violation(PROPERTY, "C13.user-file", "C13:%s:file:user-file-modified-by-normal-call" % op["op"], "sha/size/mtime changed, or the file is gone"))
+            os.makedirs(os.path.dirname(T.user_file), exist_ok=True)
+            T.w.libraries[0].write(T.user_file)
+            T.user_sha = _sha(T.user_file)
         probes["call_events"] = len(trace)
         sites = {}
         for t in trace:
